@@ -1,4 +1,5 @@
 """C09: the grid loop of GridSearch.fit (relabel/reweight per column, faithful records, argmin selection) and predict/predict_proba delegation."""
+from ..contracts.grid_generator import AccumulateIntegerGrid
 from ..contracts.gridsearch_fit import Delegate, FitLoop
 from ..pyvc import verify
 
@@ -7,7 +8,8 @@ def items(rep):
     rep.trust("callee contracts: constraints.signed_weights(lambda) / objective.signed_weights() are position-aligned Series (C07, C12); "
               "objective.gamma(f) / constraints.gamma(f) evaluate the predictor function f on the loaded data (C06)",
               "list.index returns the first occurrence, min() the minimum (CPython contracts)",
-              "the lattice of multipliers (_GridGenerator) is outside this VC: bounded stand-in")
+              "_GridGenerator.accumulate_integer_grid is verified modularly (budget, signs, prefix); distinctness of the entries, the scaling to grid_limit and the "
+              "basis products of _GridGenerator.__init__ are bounded only", "recursive definition of the ghost function sum_abs_from")
     return [(FitLoop(), [("relabel_nonnegative_as_positive", verify.replace_expr("weights > 0", "weights >= 0")),
                          ("weights_not_made_absolute", verify.replace_expr("weights.abs()", "weights")),
                          ("objective_weights_always_added", verify.replace_expr("not objective_in_the_span", "True")),
@@ -15,4 +17,7 @@ def items(rep):
                          ("gammas_recorded_from_the_objective", verify.replace_expr("self.constraints.gamma(predict_fct)", "objective.gamma(predict_fct)")),
                          ("constraint_term_uses_its_own_index_as_label", verify.replace_expr("grid.columns[i]", "i"))]),
             (Delegate("predict"), [("always_first_predictor", verify.replace_expr("self.predictors_[self.best_idx_]", "self.predictors_[0]"))]),
-            (Delegate("predict_proba"), [])]
+            (Delegate("predict_proba"), []),
+            (AccumulateIntegerGrid(), [("budget_not_reduced_by_the_chosen_value", verify.replace_expr("max_val - abs(current_value)", "max_val")),
+                                       ("negative_values_for_every_coordinate", verify.replace_expr("-max_val if self.neg_allowed[index] else 0", "-max_val")),
+                                       ("one_value_beyond_the_budget", verify.replace_expr("max_val + 1", "max_val + 2"))])]
